@@ -489,7 +489,7 @@ pub fn run(tier: Tier, replay: Option<String>) -> i32 {
     let _ = extra.insert("host_carries_ipv6_loopback".into(), json!(v6_loopback));
     crate::report::finish(crate::report::Outcome {
         property: "C18".into(), tier, level: "model_checking", acc,
-        rule: format!("all builder states reachable with a {}-setter alphabet ({} flag helpers on/off, wholesale flags x4 (one with the unnamed bits set), prefix x2, interval x3, iname x2, admin x2, reqi x3, tcp, udp without a local address and with 4 (quick) / 8 (thorough) (remote, local) address pairs across both address families, compressed, uncompressed, relay); every transition replays the setter history on a fresh Builder and compares isi() with a reference builder; plus {connects} connects (tcp / udp without / with local address - IPv4, IPv6 wildcard towards an IPv4 peer, IPv6 loopback where the host carries them, a local port number equal to the remote's - x mode x blocking/tokio x 12 ISI configurations incl. a builder that was a relay builder before and every option unrelated to the ISI x size mode chosen first / last); every subset of the 8 unrelated options on 3 base builders against loopback peers; plus names and passwords of every length 0..=40, with multi-byte characters / carets at every offset 0..=20, and every string of the text generator for a 16-byte field (ten families, lengths 0..=32, characters of no code page, texts of 2^8..2^17 characters)", alpha.len(), if tier == Tier::Thorough { 10 } else { 5 }),
+        rule: format!("all builder states reachable with a {}-setter alphabet ({} flag helpers on/off, wholesale flags x4 (one with the unnamed bits set), prefix x2, interval x4 (quick) / x6 (thorough; sub-millisecond ones among them), iname x2, admin x2, reqi x3, tcp, udp without a local address and with 4 (quick) / 8 (thorough) (remote, local) address pairs across both address families, compressed, uncompressed, relay); every transition replays the setter history on a fresh Builder and compares isi() with a reference builder; plus {connects} connects (tcp / udp without / with local address - IPv4, IPv6 wildcard towards an IPv4 peer, IPv6 loopback where the host carries them, a local port number equal to the remote's - x mode x blocking/tokio x 12 ISI configurations incl. a builder that was a relay builder before and every option unrelated to the ISI x size mode chosen first / last); every subset of the 8 unrelated options on 3 base builders against loopback peers; plus names and passwords of every length 0..=40, with multi-byte characters / carets at every offset 0..=20, and every string of the text generator for a 16-byte field (ten families, lengths 0..=32, characters of no code page, texts of 2^8..2^17 characters)", alpha.len(), if tier == Tier::Thorough { 10 } else { 5 }),
         exhaustive: true, extra,
         assumptions: vec!["state key = Debug rendering of the real Builder + the reference ISI".into(), "UDP without a local address is expected to announce UDPPort 0 (LFS then replies to the source port)".into()],
         started,
